@@ -180,9 +180,33 @@ def stepD (f : List Nat) (layout : String) (o : Oracles) : String :=
       else showVerdict m
   | _ => "bad-op"
 
+/-! threshold-boundary lines: `t <v|c> <ss> <n> <rb> <epoch> <slot> <idx> <thr-be-hex> <res-hex>`;
+    `below` is C25's `checkPrimary res thr` (= `natOfLE res < thr`, strictly: C25_compare) -/
+
+def stepT (mode : String) (f : List Nat) (thr res : Bytes) : String :=
+  match f with
+  | [ss, n, rb, _epoch, slot, idx] =>
+    if thr.length ≠ 16 ∨ n < 1 ∨ n > 7 ∨ idx ≥ n then "bad-op" else
+    let below := C25.checkPrimary res (C13.ofBytesBE thr)
+    if mode = "v" then
+      let m := verify H ss 1 1 n (randOf rb) [.pre (some (.primary idx slot)), .sealItem] ⟨true, below, .yes, .yes⟩
+      s!"{showVerdict m} {hex res}"
+    else if mode = "c" then
+      match claimSlot H ss n idx (randOf rb) slot below with
+      | none => s!"none {hex res}"
+      | some (.primary _ _) => s!"1 {hex res}"
+      | some (.secPlain _ _) => s!"2 {hex res}"
+      | some (.secVRF _ _) => s!"3 {hex res}"
+    else "bad-op"
+  | _ => "bad-op"
+
 def step (line : String) : String :=
   match words line with
   | "mgr" :: _ => stepMgr line
+  | ["t", mode, ss, n, rb, epoch, slot, idx, thr, res] =>
+    match allNat [ss, n, rb, epoch, slot, idx], ofHex? thr, ofHex? res with
+    | some f, some tb, some rs => stepT mode f tb rs
+    | _, _, _ => "bad-op"
   | "d" :: rest =>
     if rest.length ≠ 15 then "bad-op" else
     match allNat (rest.take 12), (rest.getD 14 "").length ≥ 1, oraclesOf (rest.getD 14 "") with
